@@ -9,6 +9,7 @@
      3. function import            f        -> the caller module's import whose last segment is f;
                                                import paths are relative to the caller's module,
                                                every leading `super` segment walks up one module
+                                               (the last segment is the imported name, never a step)
      4. module-prefix import       q.r.f    -> the import whose last segment is q designates a module;
                                                r.f is looked up inside it
    More `super` segments than enclosing modules is an error (SuperLimitReached).
@@ -59,7 +60,7 @@ Definition lookup (root : module) (path : list str) (name : str) : option fid :=
   | None => None
   end.
 
-(* an import path: number of leading `super` segments and the remaining segments *)
+(* number of leading `super` segments of a module path, and the remaining segments *)
 Fixpoint strip_supers (segs : list str) : nat * list str :=
   match segs with
   | x :: r => if seq_eqb x w_super then let '(k, rest) := strip_supers r in (S k, rest) else (O, segs)
@@ -78,6 +79,9 @@ Inductive sres := SFound (f : fid) | SNotFound | SSuperLimit.
 Definition or_else (a : option fid) (b : sres) : sres :=
   match a with Some f => SFound f | None => b end.
 
+(* An import path is  super* . module path . NAME : its LAST segment is the imported name (the key under
+   which the import is used) and is never a `super` step; the segments before it are a module path
+   relative to the caller's module, whose leading `super` segments walk up. *)
 Definition spec_resolve (root : module) (ns : list str) (imports : list str) (name : str) : sres :=
   let segs := segments name in
   let mods := removelast segs in
@@ -89,17 +93,17 @@ Definition spec_resolve (root : module) (ns : list str) (imports : list str) (na
        match import_for imports f with
        | None => SNotFound
        | Some isegs =>
-           let '(ups, rest) := strip_supers isegs in
+           let '(ups, mpath) := strip_supers (removelast isegs) in
            if Nat.ltb (length ns) ups then SSuperLimit
-           else or_else (lookup root (firstn (length ns - ups) ns ++ removelast rest) (last rest [])) SNotFound
+           else or_else (lookup root (firstn (length ns - ups) ns ++ mpath) (last isegs [])) SNotFound
        end
    | q :: mrest =>                                               (* 4. module-prefix import *)
        match import_for imports q with
        | None => SNotFound
        | Some isegs =>
-           let '(ups, rest) := strip_supers isegs in
+           let '(ups, mpath) := strip_supers (removelast isegs) in
            if Nat.ltb (length ns) ups then SSuperLimit
-           else or_else (lookup root (firstn (length ns - ups) ns ++ rest ++ mrest) f) SNotFound
+           else or_else (lookup root (firstn (length ns - ups) ns ++ mpath ++ last isegs [] :: mrest) f) SNotFound
        end
    end)).
 
@@ -182,4 +186,76 @@ Definition function_at (root : module) (f : fid) : option function :=
       | None => None
       end
   | None => None
+  end.
+
+(* ---- enumeration of the call sites' surroundings: every function of the tree, in the order in which
+   the compiler numbers them (fn_position is the index in this list), with the path of its module and
+   that module's import list ---- *)
+Record fsite := { fs_path : list str; fs_name : str; fs_fn : function; fs_imports : list str }.
+
+Fixpoint tree_functions (m : module) (path : list str) : list fsite :=
+  match m with
+  | Module subs funs imps =>
+      map (fun nf => {| fs_path := path; fs_name := fst nf; fs_fn := snd nf; fs_imports := imps |}) funs ++
+      (fix go (l : list (str * module)) : list fsite :=
+         match l with
+         | [] => []
+         | (n, sub) :: r => tree_functions sub (path ++ [n]) ++ go r
+         end) subs
+  end.
+
+(* no module name of the tree contains a '.' (module names are not validated by the compiler; with a
+   dotted module name full names are ambiguous and the specification does not apply) *)
+Definition module_names_dotfree (root : module) : bool :=
+  negb (any_module (fun _ m => existsb (fun n => negb (is_dotless n)) (map fst (m_submodules m))) 0 root).
+
+(* the user's module with the standard library injected, as the compiler sees it *)
+Definition with_std (std : module) (m : module) : module :=
+  match m with Module subs funs imps => Module (subs ++ [(w_std, std)]) funs imps end.
+
+(* ---- the static calls and function references of a card, in the order in which they are compiled:
+   a Call card is a function reference followed by a call; a DynamicCall compiles its arguments, then
+   the function expression, then the call ---- *)
+Inductive citem := CPtr (name : str) | CCallI.
+
+Fixpoint card_items (c : card) : list citem :=
+  match c with
+  | CCall name args => flat_map card_items args ++ [CPtr name; CCallI]
+  | CFunction name => [CPtr name]
+  | CDynamicCall f args => flat_map card_items args ++ card_items f ++ [CCallI]
+  | CBin _ a b => card_items a ++ card_items b
+  | CUn _ a => card_items a
+  | CTri _ a b c => card_items a ++ card_items b ++ card_items c
+  | CCallNative _ args => flat_map card_items args
+  | CSetGlobalVar _ v => card_items v
+  | CSetVar _ v => card_items v
+  | CRepeat _ n body => card_items n ++ card_items body
+  | CForEach _ _ _ it body => card_items it ++ card_items body
+  | CComposite _ cards => flat_map card_items cards
+  | CArray cards => flat_map card_items cards
+  | CClosure _ cards => flat_map card_items cards
+  | _ => []
+  end.
+
+(* the call sites of a function of the tree, each with its surroundings *)
+Definition site_items (st : fsite) : list (fsite * citem) :=
+  map (fun it => (st, it)) (flat_map card_items (f_cards (fs_fn st))).
+
+(* what the specification designates for a reference to [name] made from site [st]: the position of
+   the target in the compiler's numbering and the number of its parameters *)
+Definition site_target (root : module) (st : fsite) (name : str) : option (nat * nat) :=
+  match spec_resolve root (fs_path st) (fs_imports st) name with
+  | SFound f =>
+      match fn_position root (fst f) (snd f) 0, function_at root f with
+      | Some pos, Some fn => Some (pos, length (f_args fn))
+      | _, _ => None
+      end
+  | _ => None
+  end.
+
+(* position of `main` among the functions of the root: the compiler moves it to the front *)
+Fixpoint main_index (funs : list (str * function)) (i : nat) : option nat :=
+  match funs with
+  | [] => None
+  | (n, _) :: r => if seq_eqb n w_main then Some i else main_index r (S i)
   end.
